@@ -30,14 +30,14 @@ def main(tier, replay=None):
     vk_build()
     srcp = scratch_build(rd, "plain")
     fams = [
-        dict(name="backoff-l1r1", opts=[M, "msgs=l1r1", "verdicts=KZ", "reorder=1"], bounds="0,0,0,%d" % (3 if q else 4), total=4),
-        dict(name="expiry-slot-reuse", opts=[M, "msgs=l1+l1b", "inject=drain", "lifetime=50", "verdicts=KZ", "reorder=1", "signals=0"], bounds="0,0,0,%d" % (3 if q else 4), total=4),
-        dict(name="expiry-lifetime0", opts=[M, "msgs=r1", "lifetime=0", "verdicts=KZ", "reorder=1", "signals=0"], bounds="0,0,0,3", total=3),
-        dict(name="restart-l3-conc1", opts=[M, "msgs=l3", "concl=1", "verdicts=KZ", "reorder=1"], bounds="0,0,0,%d" % (3 if q else 4), total=4),
-        dict(name="two-messages-order", opts=[M, "msgs=l1+r1b", "verdicts=KZ", "reorder=2", "signals=0"], bounds="0,0,0,%d" % (3 if q else 4), total=4),
+        dict(name="backoff-l1r1", opts=[M, "msgs=l1r1", "verdicts=KZ", "reorder=1"], bounds="0,0,0,%d" % (3 if q else 5), total=5),
+        dict(name="expiry-slot-reuse", opts=[M, "msgs=l1+l1b", "inject=drain", "lifetime=50", "verdicts=KZ", "reorder=1", "signals=0"], bounds="0,0,0,%d" % (3 if q else 5), total=5),
+        dict(name="expiry-lifetime0", opts=[M, "msgs=r1", "lifetime=0", "verdicts=KZ", "reorder=1", "signals=0"], bounds="0,0,0,%d" % (3 if q else 5), total=5),
+        dict(name="restart-l3-conc1", opts=[M, "msgs=l3", "concl=1", "verdicts=KZ", "reorder=1"], bounds="0,0,0,%d" % (3 if q else 5), total=5),
+        dict(name="two-messages-order", opts=[M, "msgs=l1+r1b", "verdicts=KZ", "reorder=2", "signals=0"], bounds="0,0,0,%d" % (3 if q else 5), total=5),
     ]
     for f in fams:
-        vk_run(res, "daemon", srcp, rd, f["bounds"], f["total"], 600, f["name"], opts=f["opts"])
+        vk_run(res, "daemon", srcp, rd, f["bounds"], f["total"], 600 if q else 2400, f["name"], opts=f["opts"], qcap=0 if q else 4000000)
     res.rule = ("squareroot(): every age in [0,%d) plus k^2-1,k^2,k^2+1 for all k<65536 (non-trivial: all); nextretry(): grid of 7 births x "
                 "ages -3..20000 dense, to 700000 stride 37, all square edges 140..999, both channels, against birth+(isqrt(age)+10|20)^2 and "
                 "'> now'; prioq: DFS over every insert/delmin sequence up to the depth over the key values on the real heap, checking after "
